@@ -58,6 +58,10 @@ PROBES = {
         matches("attr", "Debug, Default", STRIP_S, NO_HELPER, False, "item0"),
         matches("attr", "Debug, Default", STRIP_S, r"k0.*k1", True, "item0"),
     ],
+    "C14.strip-variants": [
+        matches("attr", "Debug, Clone", "#[repr(u8)] enum X { A(#[debug(ignore)] u8, u16) = 7, #[debug(bound(..))] B { #[debug(transparent)] x: u8 } = 9, C = 1 }", NO_HELPER, False, "item0"),
+        matches("attr", "PartialEq, Default", "enum X { #[default] #[doc = \"d\"] A, #[non_exhaustive] B(#[partial_eq(ignore)] u8), #[cfg(all())] C { #[derive_ex(Default(bound()))] x: u8 } }", NO_HELPER, False, "item0"),
+    ],
     "C14.strip-on-error": [
         matches("attr", "Debug, Deref", "struct X { #[debug(ignore)] a: u8, b: u8 }", NO_HELPER, False, "item0"),
         rejected("attr", "Debug, Deref", "struct X { #[debug(ignore)] a: u8, b: u8 }", True),
